@@ -140,3 +140,52 @@ def check(ctx):
     t = D.tests(lambda t: src(t) == "key in self.map")
     pp = D.call_nodes("self.map.pop")
     ctx.check(bool(t) and bool(pp) and D.dominated_by_edge(pp, t[0], "T"), "T6-oset", di, "oset.discard unlinks only a present key", "")
+    super_targets_do_not_redispatch(ctx)
+    oset_eq_is_ordered(ctx)
+
+
+def super_targets_do_not_redispatch(ctx):
+    """modict stores value *lists* and reaches the raw odict operations through super(); an odict method used that way must
+    work on the raw storage (dict.__getitem__, self._keys, dunder item access of its own) and not call a public method that
+    modict overrides with list-aware semantics (pop/get/items/values/setdefault/popitem ...), or the super() call lands back in
+    modict with the wrong value shape"""
+    ctx.rule("T7-super", "odict methods that modict calls through super() do not call a method modict overrides")
+    O = ctx.cls("aid.odicting", "odict")
+    M = ctx.cls("aid.odicting", "modict")
+    over = {n for n in M.methods if n in O.methods and not (n.startswith("__") and n.endswith("__"))}
+    used = set()
+    for m in M.methods.values():
+        for x in ast.walk(m):
+            if isinstance(x, ast.Call) and isinstance(x.func, ast.Attribute) and isinstance(x.func.value, ast.Call) \
+                    and call_name(x.func.value) == "super":
+                used.add(x.func.attr)
+    n = 0
+    for name in sorted(used):
+        f = O.methods.get(name)
+        if f is None:
+            continue
+        n += 1
+        bad = [src(x)[:50] for x in ast.walk(f) if isinstance(x, ast.Call) and isinstance(x.func, ast.Attribute) and
+               dotted(x.func.value) == "self" and x.func.attr in over and x.func.attr != name]
+        ctx.check(not bad, "T7-super", f, "odict.%s (reached from modict through super()) stays on raw storage %s" % (name, bad or ""),
+                  "the call dispatches to modict's override, which returns the newest value instead of the stored value list: "
+                  "modict.popitem/poplistitem return a wrong value or raise")
+    ctx.floor("T7-super:targets", n, 6)
+
+
+def oset_eq_is_ordered(ctx):
+    ctx.rule("T9-oset-eq", "oset == oset compares the element sequences (order matters), oset == other set compares as sets")
+    f = ctx.cls("aid.osetting", "oset").methods.get("__eq__")
+    if f is None:
+        raise AnchorError("oset.__eq__ not found")
+    V = FuncView(ctx, f)
+    rets = [n for n in V.cfg.nodes if n.kind == "return" and n.ast.value is not None]
+    it = V.ptests(lambda t: isinstance(t, ast.Call) and call_name(t) == "isinstance" and "oset" in src(t).lower())
+    ok = bool(it)
+    if ok:
+        ordered = [r for r in rets if V.under([r], it[0])]
+        ok = bool(ordered) and all("list(self) == list(other)" in src(r.ast.value).replace("tuple(", "list(") for r in ordered) and \
+            not any(".keys()" in src(r.ast.value) or "set(" in src(r.ast.value) for r in ordered)
+    ctx.check(ok, "T9-oset-eq", f, "oset.__eq__: ordered comparison for two osets (list(self) == list(other))",
+              "two ordered sets with the same members entered in a different order compare equal: dict key views and sets compare "
+              "without regard to order")
